@@ -333,7 +333,9 @@ func runAck(w *World) {
 		case isAck && rep.Result != protocol.RESULT_SUCCED:
 			w.probe("ack_locks_refused")
 			w.res.Probes[fmt.Sprintf("ack_lock_refused_result_%d", rep.Result)]++
-			if l := leaderHold(&r.Op); l != nil && rep.Result != protocol.RESULT_LOCKED_ERROR && rep.Result != protocol.RESULT_LOCK_ACK_WAITING {
+			// (a hold of that LockId that stems from another request, one that was granted after this one's
+			// hold had been removed and before its refusal was delivered, is not this request's hold)
+			if l := leaderHold(&r.Op); l != nil && l.command.RequestId == r.Id && rep.Result != protocol.RESULT_LOCKED_ERROR && rep.Result != protocol.RESULT_LOCK_ACK_WAITING {
 				w.violate("C11", "refused_ack_lock_still_held", "ack-lock %s was answered with result %d but the leader still holds LockId %d on key %d (depth %d, ack count %d)", r, rep.Result, r.Op.Lid, r.Op.Key, l.locked, l.ackCount)
 			}
 			if r.Op.Data != nil && r.Op.Data.Op == "set" && rep.Result != protocol.RESULT_LOCKED_ERROR && rep.Result != protocol.RESULT_LOCK_ACK_WAITING {
